@@ -477,7 +477,7 @@ def run(ctx) -> None:
         site = d / "site"
         (site / "rv_epplug").mkdir(parents=True)
         (site / "rv_epplug" / "__init__.py").write_text("")
-        for code in (105, 107):
+        for code in (105, 107, 108):  # the two highest are consecutive, the others are not
             (site / "rv_epplug" / f"c{code}.py").write_text(
                 "from dataclasses import dataclass\nfrom mypy.nodes import PassStmt\nfrom refurb.error import Error\n\n\n"
                 f"@dataclass\nclass ErrorInfo(Error):\n    \"\"\"doc\"\"\"\n\n    prefix = \"EPP\"\n    code = {code}\n    msg: str = \"ep\"\n\n\n"
